@@ -30,8 +30,12 @@ def open_ndef(sx, world, who):
 
 
 def roundtrip(sx, world, n, prop="C01"):
-    """one write of a symbolic n-byte message and a fresh read back"""
+    """one write of a symbolic n-byte message and a fresh read back.
+    prop C01: round-trip/capacity obligations; prop C03: area obligations."""
     kind = world.kind
+    real_sx = sx
+    if prop != "C01":
+        sx = Muted(sx)
     tag, ndef = open_ndef(sx, world, "first")
     if ndef is None:
         sx.check(False, "well-formed-layout-not-recognised:" + kind)
@@ -58,7 +62,9 @@ def roundtrip(sx, world, n, prop="C01"):
         sx.reach("three_byte_length")
     if n == cap:
         sx.reach("message_fills_capacity")
-    check_area(sx, world, before, "write")
+    if prop == "C03":
+        check_area(real_sx, world, before, "write")
+        return "written"
     tag2, ndef2 = open_ndef(sx, world, "second")
     if ndef2 is None:
         sx.check(False, "ndef-gone-after-write:" + kind)
@@ -87,6 +93,47 @@ def check_area(sx, world, before, what):
              if b not in world.area]
     sx.check(sx.all(conds), "%s-final-memory-differs-outside-ndef-area:%s" % (what, kind))
     world.sim.writes = []
+
+
+class Muted(object):
+    """the same API with obligations switched off (the conversation is driven
+    for another property's obligations)"""
+
+    def __init__(self, sx):
+        self._sx = sx
+
+    def __getattr__(self, name):
+        return getattr(self._sx, name)
+
+    def check(self, cond, label):
+        if cond is False:
+            self._sx.assume(False, "conversation of another property failed: " + label)
+        return True
+
+
+def formatflow(sx, world, wipe):
+    """C03: format(wipe) touches only the NDEF message area; afterwards the
+    tag reads as empty"""
+    kind = world.kind
+    tag, ndef = open_ndef(sx, world, "first")
+    if ndef is None:
+        sx.check(False, "well-formed-layout-not-recognised:" + kind)
+    before = world.snapshot()
+    # wipe value at or above 0x80 while previous contents are below (removes
+    # the 2^pages "page unchanged?" forks of the write-back)
+    w = None if wipe is None else sx.int("wipe", 0x80, 0xFF)
+    res = tag.format(wipe=w)
+    if res is not True:
+        sx.reach("format_not_supported_or_failed")
+        check_area(sx, world, before, "format")
+        return "format:%r" % res
+    sx.reach("format_wipe" if wipe is not None else "format_no_wipe")
+    check_area(sx, world, before, "format")
+    tag2, ndef2 = open_ndef(sx, world, "after-format")
+    if ndef2 is None:
+        sx.check(False, "ndef-gone-after-format:" + kind)
+    sx.check(ndef2.length == 0, "message-not-empty-after-format:" + kind)
+    return "formatted"
 
 
 class PowerCut(object):
